@@ -205,6 +205,7 @@ def repeated_lines_through_executor(rep):
         "three-sharing": ([("a", ["pass"], []), ("b", ["pass"], ["a"]), ("c", ["pass"], ["b"])], ["a", "b", "c"]),
         "blank-and-indent": ([("a", ["if x:", "    y = 1", "", "if z:", "    y = 1"], [])], ["a"]),
         # a block without lines is still a block: it can be depended on, and ordering chains run through it
+        "non-ascii-lines": ([("a", ["# donn\u00e9es 2018 \u2013 p\u00e9riode K", "tag = '\u00b5Calib'"], []), ("b", ["tag2 = 'uCalib'", "# donnees 2018"], ["a"])], ["a", "b"]),
         "empty-dependency": ([("a", [], []), ("b", ["b = 1"], ["a"])], ["a", "b"]),
         "empty-in-the-middle": ([("a", ["a = 1"], []), ("b", [], ["a"]), ("c", ["c = 1"], ["b"])], ["a", "b", "c"]),
         "empty-alone": ([("a", [], [])], ["a"]),
